@@ -32,6 +32,9 @@ def ensure_env():
         "MKL_NUM_THREADS": "1",
         "CHMPY_VERIF": "1",
     }
+    if os.environ.get("CHMPY_VERIF_OPTIMIZE") == "1":
+        # the slice of the batch that runs in an interpreter without assert statements (python -O)
+        want["PYTHONOPTIMIZE"] = "1"
     if any(os.environ.get(k) != v for k, v in want.items()):
         env = dict(os.environ)
         env.update(want)
@@ -45,6 +48,7 @@ def main():
     ap.add_argument("--selftest", choices=["determinism", "sensitivity"])
     ap.add_argument("--workers", type=int, default=int(os.environ.get("VERIF_WORKERS", "0")) or None)
     ap.add_argument("--fingerprints", help="internal: stratum:start:count[,...] -> print fingerprints as JSON")
+    ap.add_argument("--slice", help="internal: stratum:start:count[:stride][,...] -> run and judge these histories only")
     ap.add_argument("--random-runs", type=int)
     ap.add_argument("--budget", type=float, help="thorough: wall-clock seconds for the random stratum")
     ap.add_argument("--no-evidence", action="store_true")
@@ -52,6 +56,14 @@ def main():
     args = ap.parse_args()
     if args.src:
         os.environ["CHMPY_VERIF_SRC"] = args.src
+    if args.replay:
+        # a history found in an interpreter started with -O is replayed in one
+        try:
+            with open(args.replay) as f:
+                if json.load(f).get("python_optimize"):
+                    os.environ["CHMPY_VERIF_OPTIMIZE"] = "1"
+        except (OSError, ValueError):
+            pass
     ensure_env()
     sys.path.insert(0, os.environ.get("CHMPY_VERIF_SRC", SRC))
     sys.path.insert(0, VERIF)
@@ -60,6 +72,8 @@ def main():
     seed = int(os.environ.get("VERIF_SEED", "0") or 0)
     if args.replay:
         sys.exit(runner.replay_main(args.replay))
+    if args.slice:
+        sys.exit(runner.slice_main(seed, args.slice, args.workers))
     if args.fingerprints:
         sys.exit(runner.fingerprints_main(seed, args.fingerprints, args.workers))
     if args.selftest == "determinism":
